@@ -469,5 +469,5 @@ def check_wellformed(g: Grammar):
             walk(r.body)
         elif isinstance(r, CharRule):
             for p in r.parts:
-                if p[0] == "ref" and p[1] not in names:
+                if p[0] == "ref" and p[1] != "char" and p[1] not in names:
                     raise GrammarError("undefined rule " + p[1])
